@@ -26,7 +26,7 @@ for seed in seeds:
         inputs.append(smtgen.script_text(cmds))
     for text in inputs:
         try:
-            f, st = search_cycles(impl, P, impl.parse(text), 3, 40, rng)
+            f, st = search_cycles(impl, P, impl.parse(text), 2, 200, rng)
         except Exception as e:  # noqa
             print('ERR', type(e).__name__, e, file=sys.stderr)
             continue
